@@ -20,11 +20,11 @@ type node struct {
 }
 
 type fdent struct {
-	n      *node
-	off    int64
-	app    bool
-	path   string // path at open time, relative to the root ("" = root)
-	isAck  bool
+	n     *node
+	off   int64
+	app   bool
+	path  string // path at open time, relative to the root ("" = root)
+	isAck bool
 }
 
 // Applied describes what an event did, for classification by the properties.
@@ -374,10 +374,31 @@ func (fs *FS) Apply(ev Event) (Applied, error) {
 		return a, nil
 	case "fallocate":
 		fd, _ := strconv.Atoi(arg(0))
-		if _, ok := fs.fds[fd]; ok {
-			return a, &UnknownCallError{"fallocate on a tracked descriptor"}
+		e, ok := fs.fds[fd]
+		if !ok || e.isAck {
+			return a, nil
 		}
-		return a, nil
+		mode := strings.TrimSpace(arg(1))
+		switch mode {
+		case "FALLOC_FL_KEEP_SIZE":
+			// blocks reserved beyond the end: neither size nor content change
+			a.Op, a.Path, a.Fd = "fallocate", e.path, fd
+			return a, nil
+		case "0":
+			off, err1 := strconv.ParseInt(strings.TrimSpace(arg(2)), 0, 64)
+			ln, err2 := strconv.ParseInt(strings.TrimSpace(arg(3)), 0, 64)
+			if err1 != nil || err2 != nil {
+				return a, &UnknownCallError{"fallocate with unreadable arguments"}
+			}
+			a.Op, a.Path, a.Fd = "fallocate", e.path, fd
+			if need := off + ln; need > int64(len(e.n.data)) {
+				e.n.data = append(e.n.data, make([]byte, need-int64(len(e.n.data)))...)
+				e.n.sum = nil
+				a.Changed = true
+			}
+			return a, nil
+		}
+		return a, &UnknownCallError{"fallocate mode " + mode + " on a tracked descriptor"}
 	}
 	return a, nil
 }
